@@ -32,7 +32,8 @@ def plan(tier):
                                  "from_elem_max_refused", "value_equals_small_max", "value_above_small_max",
                                  "value_below_small_min", "set", "len_power_of_two",
                                  "bitenc_more_than_65536_symbols", "fenwick_len_beyond_65536",
-                                 "wide_type_pairs", "small_value_with_top_bit_set"],
+                                 "wide_type_pairs", "small_value_with_top_bit_set",
+                                 "object_copied_mid_history", "smallints_copied_mid_history", "bitenc_more_than_2p32_bits"],
         "rule": "BitEnc: every complete history of <=2 (quick) / <=3 (thorough) operations that TLC generates from "
                 "the BitEnc machine at the real block size 32 for widths 1..8 (n and i chosen at the block seams, "
                 "values 1 and over-wide 255) replayed into the real BitEnc, plus seeded random histories of <=12 "
